@@ -12,7 +12,7 @@ Bridge between the lexer side (`Oq3.Lexed`: `LexedStr`, `to_input`) and the buil
 Core only.
 -/
 import Oq3.Lemmas.Lexed
-import Oq3.Lemmas.Builder
+import Oq3.Lemmas.BuilderFit
 
 namespace Oq3.Bridge
 open Oq3.Gen Oq3.Lexer Oq3.Lexed Oq3.Lemmas.Lexer Oq3.Lemmas.Lexed Oq3.Builder
@@ -107,15 +107,6 @@ theorem rawToks_kind_ne_eof (uc : UC) (s : List Char) :
 
 /-! ### the exact value of `to_input` -/
 
-/-- kinds of the non-trivia raw tokens, in order -/
-def ntKinds (toks : List RawTok) : List SyntaxKind :=
-  (toks.filter (fun t => !t.kind.isTrivia)).map (·.kind)
-
-/-- the list starts with a non-trivia token -/
-def headNonTrivia : List RawTok → Bool
-  | [] => false
-  | t :: _ => !t.kind.isTrivia
-
 /-- the joint bits `to_input` computes, one per non-trivia token: the next raw token is
 non-trivia, or the token is a float with a fractional part -/
 def jointSpec : List RawTok → List Bool
@@ -158,7 +149,7 @@ theorem toInputStep_eq (l : LexedStr) (i : Nat) (st : ToInputState) (hinv : Inpu
   obtain ⟨hlen, hwj⟩ := hinv
   simp only [toInputStep, hk, ht, pureStep]
   cases htr : k.isTrivia with
-  | true => simp only [if_true]; exact ⟨rfl, hlen, by simp⟩
+  | true => simp only [if_true]; exact ⟨by first | rfl | trivial, hlen, by simp⟩
   | false =>
     simp only [Bool.false_eq_true, if_false]
     -- pending `was_joint` of the previous token
@@ -169,7 +160,7 @@ theorem toInputStep_eq (l : LexedStr) (i : Nat) (st : ToInputState) (hinv : Inpu
       cases hw : st.wasJoint with
       | false => exact ⟨st.res, by simp, by simp, hlen⟩
       | true =>
-        refine ⟨_, ?_, by simp, ?_⟩
+        refine ⟨{ st.res with joint := setLast st.res.joint }, ?_, by simp, ?_⟩
         · simp only [if_true]; exact wasJoint_eq st.res hlen (hwj hw)
         · simp [setLast_length, hlen]
     obtain ⟨res0, h01, h02, h03⟩ := h0
@@ -178,14 +169,14 @@ theorem toInputStep_eq (l : LexedStr) (i : Nat) (st : ToInputState) (hinv : Inpu
     have hp2 : (res0.push k).kind ≠ [] := by simp [Input.push]
     simp only []
     cases hfl : (k == SyntaxKind.FLOAT_NUMBER) with
-    | false => simp only [Bool.false_and, Bool.false_eq_true, if_false]; exact ⟨rfl, hp1, fun _ => hp2⟩
+    | false => simp only [Bool.false_and, Bool.false_eq_true, if_false]; exact ⟨by first | rfl | trivial, hp1, fun _ => hp2⟩
     | true =>
       simp only [Bool.true_and, if_true]
       cases hd : endsWithDot t with
-      | true => simp only [Bool.not_true, Bool.false_eq_true, if_false]; exact ⟨rfl, hp1, fun _ => hp2⟩
+      | true => simp only [Bool.not_true, Bool.false_eq_true, if_false]; exact ⟨by first | rfl | trivial, hp1, fun _ => hp2⟩
       | false =>
         simp only [Bool.not_false, if_true, wasJoint_eq _ hp1 hp2]
-        exact ⟨rfl, by simp [setLast_length, hp1], fun _ => hp2⟩
+        exact ⟨by first | rfl | trivial, by simp [setLast_length, hp1], fun _ => hp2⟩
 
 /-- folding `pureStep` over the remaining raw tokens -/
 theorem fold_pureStep (suf : List RawTok) (st : ToInputState) :
@@ -203,8 +194,9 @@ theorem fold_pureStep (suf : List RawTok) (st : ToInputState) :
       simp [pureStep, htr, ntKinds, jointSpec, headNonTrivia]
     | false =>
       have hnt : ntKinds (t :: rest) = t.kind :: ntKinds rest := by simp [ntKinds, htr]
-      simp only [pureStep, htr, Bool.false_eq_true, if_false, hnt, jointSpec, headNonTrivia,
-        Bool.not_false, Bool.and_true, Bool.true_and]
+      have hhd : headNonTrivia (t :: rest) = true := by simp [headNonTrivia, htr]
+      simp only [pureStep, htr, Bool.false_eq_true, if_false, hnt, jointSpec, hhd, Bool.and_true,
+        Bool.true_and]
       cases hw : st.wasJoint <;> cases hh : headNonTrivia rest <;>
         cases hf : (t.kind == SyntaxKind.FLOAT_NUMBER && !endsWithDot t.text) <;>
         simp [Input.push, setLast_append_singleton]
@@ -243,11 +235,6 @@ theorem toInput_exact (uc : UC) (s : List Char) :
   simp [Input.empty]
 
 /-! ### (a), (b): what the parser input says about the raw token table -/
-
-/-- bit `i`: the raw token right after the `i`-th non-trivia token exists and is not trivia -/
-def adjBits : List RawTok → List Bool
-  | [] => []
-  | t :: rest => if t.kind.isTrivia then adjBits rest else headNonTrivia rest :: adjBits rest
 
 theorem jointSpec_length (toks : List RawTok) : (jointSpec toks).length = (ntKinds toks).length := by
   induction toks with
